@@ -9,6 +9,7 @@
 From Coq Require Import String.
 From Coq Require Import NArith ZArith List Bool Permutation.
 From Cose Require Import Lib.Base Lib.Cbor Lib.CborProofs Model.GoVal Model.CborGo Model.Wire Model.CborGoProofs.
+From Cose Require Import Model.CwtCodec Model.CwtCodecProofs.
 Import ListNotations.
 
 (* ---- out: what is written decodes to the same value, with maps in the deterministic order *)
@@ -92,3 +93,13 @@ Example C08_nonvacuous :
   let it := IMap [(IUint 500, IArr [ITstr (hex "6162"); INint 7]); (IUint 1, IMap [(ITstr (hex "7a"), ISimple 21)]); (INint 0, IBstr (hex "00ff"))] in
   encodable it = true /\ decode (encode it) = Ok (canon it) /\ canon it <> it.
 Proof. vm_compute. repeat split; discriminate. Qed.
+
+(* claim sets in struct form (cwt.Claims): whatever is accepted passed the strict generic decoding first (so, by
+   C08_duplicate_key_refused_at_any_depth, holds no duplicate key at any depth, also under claims the struct ignores:
+   fixed in 2f7e848), and the encoder writes the members in the deterministic order *)
+Theorem C08_claims_strict : forall raw c, dec_claims raw = Ok c -> exists it g, decode raw = Ok it /\ parse true it = Ok g.
+Proof. exact claims_strict. Qed.
+Print Assumptions C08_claims_strict.
+Theorem C08_claims_written_canonically : forall c, canon (claims_item c) = claims_item c.
+Proof. exact claims_item_canonical. Qed.
+Print Assumptions C08_claims_written_canonically.
